@@ -276,6 +276,20 @@ fn run_work(ind: &mut Ind, inputs: &[Inp]) -> Vec<Out> {
     inputs.iter().map(|i| feed(ind, i)).collect()
 }
 
+/// Built without the thread stage (feature `nothreads`): `./check` falls back to this when the ordinary build fails,
+/// so that an indicator that stopped being `Send`/`Sync` (a matter of C19, the type checker) does not turn every
+/// check into "inconclusive"; the stage then only runs the sequential half.
+#[cfg(feature = "nothreads")]
+pub fn check_threads(c: &TCase, ctx: &mut Ctx) -> Result<(), Failure> {
+    for (cfg, inputs) in &c.work {
+        let mut ind = fresh(cfg)?;
+        let _ = run_work(&mut ind, inputs);
+    }
+    ctx.label("thread_stage_disabled_nothreads_build");
+    Ok(())
+}
+
+#[cfg(not(feature = "nothreads"))]
 pub fn check_threads(c: &TCase, ctx: &mut Ctx) -> Result<(), Failure> {
     // sequential run
     let mut seq: Vec<Vec<Out>> = vec![];
